@@ -378,5 +378,43 @@ inline void guard_install(unsigned alarm_s = 0)
 }
 inline void finished() { finished_ref() = true; }
 
+
+// ---------------------------------------------------------------- batches of requests
+// A batch of library requests is first run in one forked child that appends its events to `path`.
+// If that child does not finish cleanly (the library exited, aborted, crashed or hung on some
+// request), the events are discarded and the caller re-runs the batch in "precise" mode, where
+// every single request gets its own child, so that one failing request costs one event only.
+inline bool run_batch(const std::string& path, const std::function<void(Trace&)>& fn, int timeout_s = 120)
+{
+	std::string tmp = path + ".batch";
+	std::fflush(nullptr);
+	pid_t pid = fork();
+	if(pid == 0)
+	{
+		int dn = open("/dev/null", O_WRONLY);
+		dup2(dn, 1);
+		dup2(dn, 2);
+		alarm((unsigned)timeout_s);
+		signal(SIGALRM, SIG_DFL);
+		signal(SIGABRT, SIG_DFL);
+		{
+			Trace t(tmp);
+			fn(t);
+		}
+		std::_Exit(42);
+	}
+	int st = 0;
+	waitpid(pid, &st, 0);
+	bool ok = WIFEXITED(st) && WEXITSTATUS(st) == 42;
+	if(ok)
+	{
+		std::ifstream in(tmp, std::ios::binary);
+		std::ofstream out(path, std::ios::binary | std::ios::app);
+		out << in.rdbuf();
+	}
+	std::remove(tmp.c_str());
+	return ok;
+}
+
 }	// namespace vf
 #endif
